@@ -148,10 +148,13 @@ def tables():
                                                                                 lambda: FE(triangle, 1, (2,))],
                                 "_label": const("", "boundary")},
                            lambda v, mk=mk: mk(v["_ufl_domain"], v["_ufl_element"], label=v["_label"]))
-    md = [lambda: {"quadrature_degree": 2, "scheme": "default"}, lambda: {}, lambda: {"quadrature_degree": 3, "scheme": "default"},
+    md = [lambda: {"quadrature_degree": 2, "scheme": "default", "opts": {"a": 1, "b": [{"p": 1, "q": 2}]}}, lambda: {}, lambda: {"quadrature_degree": 3, "scheme": "default"},
           lambda: {"quadrature_degree": 2}, lambda: {"quadrature_degree": 2, "scheme": "vertex"},
           lambda: {"quadrature_degree": 2, "scheme": "default", "nested": {"a": [1, 2]}}]
-    md_pres = [lambda: {"scheme": "default", "quadrature_degree": 2}]
+    # == to the base metadata as dicts, keys inserted in another order (top level / nested / inside a list)
+    md_pres = [lambda: {"scheme": "default", "opts": {"a": 1, "b": [{"p": 1, "q": 2}]}, "quadrature_degree": 2},
+               lambda: {"quadrature_degree": 2, "scheme": "default", "opts": {"b": [{"p": 1, "q": 2}], "a": 1}},
+               lambda: {"quadrature_degree": 2, "scheme": "default", "opts": {"a": 1, "b": [{"q": 2, "p": 1}]}}]
     T["Integral"] = ClassTable(
         Integral,
         {"_integrand": integrand_thunks(), "_integral_type": const("cell", "exterior_facet", "interior_facet"),
